@@ -213,9 +213,9 @@ theorem nextArg_total (args : List Str) (names : List (Str × Bool)) :
 
 /-- read_chars hands over exactly the requested prefix or nothing; never more than was read -/
 theorem readChars_spec (stream : List Nat) (count : Nat) :
-    (readChars stream count = none ↔ stream.length < count) ∧
-    (∀ r, readChars stream count = some r → r.length = count ∧ r = stream.take count) := by
-  unfold readChars
+    (readCharsSpec stream count = none ↔ stream.length < count) ∧
+    (∀ r, readCharsSpec stream count = some r → r.length = count ∧ r = stream.take count) := by
+  unfold readCharsSpec
   by_cases h : count ≤ stream.length
   · simp [h] <;> omega
   · simp [h] <;> omega
